@@ -466,6 +466,9 @@ fn unit_c16(w: &mut W, call: Call, data: &[u8]) {
             let _ = cap;
             // the same on a REUSED value: after an identical first call (Partial, fields set,
             // array restored), the entry points must still agree on status and on every field
+            if w.tier == Tier::Tiny && w.rot(data) % 4 != 0 {
+                return; // Miri budget: the reused-value comparison on a quarter of the buffers
+            }
             let is_req = kind == Kind::Req;
             let first: &[u8] = if is_req { b"POST /submit HTTP/1.0\r\nFirst:" } else { b"HTTP/1.0 404 Not Found\r\nFirst:" };
             let fb = w.ctx.place_in(2, first, Place::End);
